@@ -41,6 +41,9 @@ func c12Preludes() [][]model.Op {
 	return [][]model.Op{
 		{nP, nP, nP, two(0, 1), two(1, 2), two(0, 2), two(2, 0)},
 		{nP, nP, two(0, 1), two(1, 0), {K: model.OpNew, Path: model.PathMapN, Cs: ct.Of(ct.P, ct.R1), T: rel(ct.R1, 0)}, {K: model.OpRegister, F: 0}},
+		// both targets of a two-relation table removed one after the other / table freed by Shrink while both live
+		{nP, nP, nP, two(0, 1), two(1, 2), two(0, 2), two(2, 0), {K: model.OpRemoveEntity, E: 0}, {K: model.OpRemoveEntity, E: 1}},
+		{nP, nP, nP, two(0, 1), two(1, 2), {K: model.OpRemoveEntity, E: 3}, {K: model.OpShrink}, {K: model.OpRemoveEntity, E: 0}},
 		// relation tables grown to different capacities (capacity 1 world): recycling order after Reset shows in Stats
 		{nP, nP, nP, child1(0), child1(0), child1(0), child1(1), child1(2), child1(2)},
 	}
@@ -50,16 +53,21 @@ type c12Task struct {
 	cfg     drv.Config
 	prelude []model.Op
 	start   []model.Op
+	less    int // depth reduction for this prelude
 }
 
 func c12Tasks() []c12Task {
 	var tasks []c12Task
 	for _, cfg := range cfgs([]int{1}, []int{0}, []api.RelMode{api.RelByIdx}, relUniverse) {
-		for _, p := range c12Preludes() {
+		for pi, p := range c12Preludes() {
 			mapReset(nil)
 			_, s1, _ := runTrace(cfg, p, nil, c12Alphabet, false)
+			less := 0
+			if pi == 2 || pi == 3 {
+				less = 1 // long preludes that already contain the critical removals
+			}
 			for _, op1 := range s1 {
-				tasks = append(tasks, c12Task{cfg, p, []model.Op{op1}})
+				tasks = append(tasks, c12Task{cfg, p, []model.Op{op1}, less})
 			}
 		}
 	}
@@ -112,7 +120,7 @@ func c12RunTask(t c12Task, depth, bound int, viol *[]drv.Violation) (uint64, int
 			*viol = append(*viol, drv.Violation{Kind: "nondeterministic", Step: len(hist),
 				Msg: fmt.Sprintf("two worlds fed the same history disagree (same process): prelude=%v history=%v", t.prelude, hist)})
 		}
-		if len(hist) >= depth {
+		if len(hist) >= depth-t.less {
 			return
 		}
 		for _, op := range succ {
